@@ -8,6 +8,7 @@ from sfa import flow
 from sfa.model import AnalysisError
 from sfa.model import FuncInfo
 from sfa.model import call_name
+from sfa.model import kwarg
 from sfa.model import norm
 from sfa.model import walk_local
 from sfa.report import Ctx
@@ -70,6 +71,29 @@ class _Mut(flow.Client):
         self.mut_sites: tp.Dict[int, tp.Tuple[ast.AST, str, tp.FrozenSet[str], str]] = {}  # first visit only
         self._handlers_single: tp.Set[int] = set()
         self._narrowing: tp.Set[int] = set()
+        # locals that only ever name one component of the receiver: `x = self._c`, `(x := self._c)`, `x = self._c = []`
+        adefs: tp.Dict[str, tp.List[tp.Optional[str]]] = {}
+
+        def comp_of(e: ast.AST) -> tp.Optional[str]:
+            if isinstance(e, ast.Attribute) and isinstance(e.value, ast.Name) and e.value.id in self.receivers:
+                return e.attr
+            return None
+        for n in walk_local(f.node):
+            if isinstance(n, ast.Assign):
+                cs = [comp_of(t) for t in n.targets if comp_of(t) is not None] or [comp_of(n.value)]
+                for t in n.targets:
+                    for x in ast.walk(t):
+                        if isinstance(x, ast.Name) and isinstance(x.ctx, ast.Store):
+                            adefs.setdefault(x.id, []).append(cs[0] if x is t else None)
+            elif isinstance(n, ast.NamedExpr):
+                adefs.setdefault(n.target.id, []).append(comp_of(n.value))
+            elif isinstance(n, (ast.For, ast.AugAssign, ast.AnnAssign, ast.comprehension)) or isinstance(n, ast.withitem):
+                tgt = getattr(n, 'target', None) or getattr(n, 'optional_vars', None)
+                if tgt is not None:
+                    for x in ast.walk(tgt):
+                        if isinstance(x, ast.Name):
+                            adefs.setdefault(x.id, []).append(None)
+        self.aliases = {nm: vs[0] for nm, vs in adefs.items() if vs and vs[0] is not None and all(v == vs[0] for v in vs) and nm not in f.params}
         for n in ast.walk(f.node):
             # `if self.x is None: raise ...` — the if-form of `assert self.x is not None` (Optional narrowing)
             if isinstance(n, ast.If) and isinstance(n.test, ast.Compare) and len(n.test.ops) == 1 \
@@ -127,6 +151,8 @@ class _Mut(flow.Client):
                     st = self._mutate(st, recv.attr, node, f'{recv.attr}.{m}')
                 elif isinstance(recv, ast.Name) and recv.id in self.receivers and recv.id == 'self':
                     st = self._mutate(st, '*', node, f'self.{m}')
+                elif isinstance(recv, ast.Name) and recv.id in self.aliases:
+                    st = self._mutate(st, self.aliases[recv.id], node, f'{self.aliases[recv.id]}.{m}')
         return st
 
     def on_raise(self, s, st):
@@ -186,9 +212,11 @@ def _rowcount_validated(f: FuncInfo, call: ast.Call) -> tp.Tuple[bool, str]:
                 names = [t.id for t in s.targets if isinstance(t, ast.Name)]
                 names += [e.id for t in s.targets if isinstance(t, (ast.Tuple, ast.List)) for e in t.elts if isinstance(e, ast.Name)]
                 v = norm(s.value)
+                reidx = any(isinstance(c, ast.Call) and isinstance(c.func, ast.Attribute) and c.func.attr == 'reindex'
+                            and norm(c.args[0] if c.args else kwarg(c, 'index')) in ('self.index', 'self._index') for c in ast.walk(s.value))
                 for nme in names:
                     st = st - {nme}
-                    if '.reindex(self.index' in v or '.reindex(self._index' in v:
+                    if reidx:
                         st = st | {nme}
                     elif isinstance(s.value, ast.Name) and s.value.id in st:
                         st = st | {nme}
